@@ -19,6 +19,7 @@ package main
 import (
 	"bufio"
 	"bytes"
+	"encoding/hex"
 	"encoding/json"
 	"errors"
 	"fmt"
@@ -107,9 +108,9 @@ func errKind(err error) string {
 type local struct {
 	held []heldRead
 	nget int
-	dir string
-	st  util.Storage
-	d   db.Database
+	dir  string
+	st   util.Storage
+	d    db.Database
 }
 
 func (l *local) Reopen(via string) (res Result) {
@@ -1195,7 +1196,21 @@ func gen(rnd *rand.Rand, mode, execMode string) *History {
 			if len(names) > 0 && rnd.Intn(10) < 3 { // a sibling of another name
 				o := names[rnd.Intn(len(names))]
 				nm = append([]byte{}, o...)
-				switch rnd.Intn(6) {
+				switch rnd.Intn(10) {
+				case 6:
+					// the name IS the file-name form of the other name (what a database that also looks for files of an
+					// older naming scheme would find), in both directions and both cases
+					nm = []byte(hex.EncodeToString(o))
+				case 7:
+					nm = []byte(strings.ToUpper(hex.EncodeToString(o)))
+				case 8:
+					if d, err := hex.DecodeString(string(o)); err == nil && len(d) > 0 {
+						nm = d
+					} else {
+						nm = append([]byte(hex.EncodeToString(o)), ".entity"...)
+					}
+				case 9:
+					nm = append(nm, ".entity"...)
 				case 0:
 					nm = append(nm, byte(rnd.Intn(256)))
 				case 1:
